@@ -430,7 +430,20 @@ class Project:
                     if parts[0] in f.nested:
                         return list(f.nested[parts[0]]), d
                     f = f.parent
-                return [], d
+                # a local bound to package classes/functions (cls = _GFFDBCreator ... cls(**kw))
+                out = []
+                if func is not None:
+                    for n in walk_own(func.node):
+                        if isinstance(n, ast.Assign) and any(isinstance(t, ast.Name) and t.id == parts[0] for t in n.targets) \
+                                and isinstance(n.value, (ast.Name, ast.Attribute)):
+                            dv = self.dotted(n.value, module, func)
+                            if dv in self.classes:
+                                init = self.method(self.classes[dv], "__init__")
+                                if init is not None and init not in out:
+                                    out.append(init)
+                            elif dv in self.funcs and self.funcs[dv] not in out:
+                                out.append(self.funcs[dv])
+                return out, d
             if parts[0] in ("self", "cls") and len(parts) == 2 and func is not None:
                 c = func.cls
                 f = func
